@@ -204,6 +204,19 @@ CLAIMED['C02'] = dict(
          'the documented mask set (mask_scale_neg_odd_refuted); reported as KNOWN-FINDING on every run, not repaired.',
     note=NOTE + ' Arbitrary non-dyadic factors and reversal are compared within 1e-9 under a measured guard band (near-tie extrema, stop metrics within 1e-6 of threshold, zero-crossing counts on exact zeros are discarded and counted).')
 
+CLAIMED['C07'] = dict(
+    technique='Coq proof over an abstract model of the masked extraction, the mask-frequency ladder, the amplitude modes and the Pool contract (all schedules), with a fixed-point executable instance + bit-exact toy correspondence of the real get_next_imf_mask / mask_sift (quantised cosine, integer envelopes) + plain-numpy specification oracle and byte-equality across nprocesses',
+    text='Theorems (Prop_C07.v) prove, for any signal type and extraction oracle, that the masked IMF is the equal-weight mean over j < n of '
+         'extraction(X + m_j) - m_j with the SAME mask m_j = amp*cos(2 pi z t + 2 pi j/n) added and subtracted, phases equally spaced, flag = any, '
+         'raising iff an extraction raises; that a zero-amplitude mask reduces to plain extraction (under the numpy arithmetic laws, discharged for the '
+         'executable instance); that the generated frequencies are z/s^i and explicit lists are used as given, that the returned frequencies are '
+         'exactly the ones passed to each layer\'s extraction for all four sources; that amplitudes follow the mode (abs / ratio of the signal\'s std / '
+         'ratio of the PREVIOUS returned column\'s std, scalar or per-layer array, numpy scalars included as repaired); and that for EVERY schedule valid '
+         'for the Pool contract (each task once, results keyed by task index, pure tasks) starmap returns map f args, hence masked extraction and the '
+         'whole masked sift are independent of nprocesses (purity shown necessary). The real multiprocessing/fork/OS scheduler is trusted and '
+         'exercised (byte-equal results for nprocesses 1..8), not modelled.',
+    note=NOTE + ' libm cosine, std, the zero-crossing / instantaneous-frequency estimators and plain get_next_imf are oracles; ratio amplitude modes have no exact twin (std is irrational) and are compared at 1e-9.')
+
 _PENDING = 'check under construction in this session (model/theorem/correspondence not all in place yet); not claimed until they are'
 NOT_CLAIMED = {('C%02d' % i): _PENDING for i in range(1, 21)}
 for _p in CLAIMED:
